@@ -171,6 +171,10 @@ def trace_rerun(job, check, tier, seed, nshards):
         os.remove(tr)
     if again["rc"] == 0 or last is None:
         return None
+    if "AISMON-HARNESS-PANIC" in again["stderr"] or "AISMON-HARNESS-PANIC" in job.get("stderr", ""):
+        # the harness itself panicked outside a call into ais: a defect of the machinery,
+        # never a verdict on the code under test
+        return {"harness_error": again["stderr"][-300:]}
     kind, extra, hexdata = (last.split(" ") + ["", "", ""])[:3]
     if kind == "L":
         replay = {"kind": "history", "cfg": job["cfg"], "note": "last traced input before abnormal exit",
@@ -379,7 +383,9 @@ def run_generic(pid, tier, seed, pairs, nshards=NCPU, scale=None, workload=None)
     for j in jobs:
         if j["rc"] != 0:
             w = trace_rerun(j, workload, tier, seed, nshards)
-            if w is not None:
+            if w is not None and "harness_error" in w:
+                inconclusive.append("harness error in shard %s/%s #%d: %s" % (j["profile"], j["cfg"], j["shard"], w["harness_error"].replace("\n", " ")))
+            elif w is not None:
                 w["prop"] = pid
                 extra_viol.append(w)
             else:
